@@ -1071,12 +1071,76 @@ impl<'a> Th<'a> {
                 let r = lib(|| m_all::packedpair::Pair::with_indices(n, *i1, *i2));
                 Out::new("pair_idx", res_of(r, |p| Res::Pair(p.map(|p| (p.index1(), p.index2())))))
             }
+            #[allow(unused_variables)]
+            Op::HugeCount { be, len, holes } => {
+                #[cfg(miri)]
+                {
+                    return Out::skip("huge_count");
+                }
+                #[cfg(not(miri))]
+                {
+                    let mut huge = match crate::arena::Huge::new(*len as usize) {
+                        Some(h) => h,
+                        None => return Out::skip("huge_count"),
+                    };
+                    for &at in holes {
+                        huge.write(at as usize, &[1]);
+                    }
+                    let h = huge.slice();
+                    let s = match make_searcher(*be, 1, [0, 0, 0]) {
+                        None => return Out::skip("huge_count"),
+                        Some(s) => s,
+                    };
+                    let r = lib(|| s.count(h));
+                    let expect = *len - holes.len() as u64;
+                    self.w.stats.lock().unwrap().inner_evals += *len / 1024;
+                    match r {
+                        Ok(Some(c)) => Out::new("huge_count", Res::Count(c as u64)).expect(VKind::Count, Res::Count(expect)),
+                        Ok(None) => Out::skip("huge_count"),
+                        Err(m) => Out::new("huge_count", Res::Panic(m)).expect(VKind::Count, Res::Count(expect)),
+                    }
+                }
+            }
+            #[allow(unused_variables)]
+            Op::HugeFindIter { needle, len, at } => {
+                #[cfg(miri)]
+                {
+                    return Out::skip("huge_find_iter");
+                }
+                #[cfg(not(miri))]
+                {
+                    let nb = self.bytes(*needle);
+                    let mut huge = match crate::arena::Huge::new(*len as usize) {
+                        Some(h) => h,
+                        None => return Out::skip("huge_find_iter"),
+                    };
+                    huge.write(*at as usize, nb);
+                    let h = huge.slice();
+                    let n = arena_slice(*needle);
+                    let r = lib(|| {
+                        let mut it = memmem::find_iter(h, n);
+                        let a = it.next();
+                        let b = it.next();
+                        let c = it.next();
+                        (a, b, c)
+                    });
+                    self.w.stats.lock().unwrap().inner_evals += *len / 1024;
+                    let expect = Res::List(vec![*at, u64::MAX, u64::MAX]);
+                    let enc = |x: Option<usize>| x.map_or(u64::MAX, |v| v as u64);
+                    Out::new("huge_find_iter", res_of(r, |(a, b, c)| Res::List(vec![enc(a), enc(b), enc(c)])))
+                        .expect(VKind::SubIter, expect)
+                }
+            }
             Op::ByteAll { f, arity, n, hay } => self.op_byte_all(*f, *arity, *n, *hay),
             Op::PackedAll { hay, needle } => self.op_packed_all(*hay, *needle),
             Op::Lockstep { needle, cfgs, hays, iter, inert_at } => {
                 self.op_lockstep(*needle, cfgs, hays, *iter, inert_at)
             }
             Op::Cost { f, hay, needle, cfg } => self.op_cost(*f, *hay, *needle, cfg.as_ref()),
+            Op::Refill { buf } => {
+                crate::ARENA.write().unwrap().refill(*buf, self.bytes(*buf));
+                Out::new("refill", Res::Unit)
+            }
         }
     }
 
